@@ -244,6 +244,43 @@ pub fn run(out: &mut Out, seed: u64, n_seq: usize, n_par: usize, threads: usize)
             }
         }
     }
+    // (g) the same calls from caller frames of different depths on one thread (64 MiB of stack): shallow, 4 MiB deep, shallow again,
+    // and on a second thread deep first - the outcome may depend on the expression and the placeholder only, not on where the caller's
+    // stack happens to stand (nor on where it stood at an earlier call)
+    {
+        fn at_depth<R>(levels: usize, f: &mut dyn FnMut() -> R) -> R {
+            let mut pad = [0u8; 65536];
+            std::hint::black_box(&mut pad);
+            let r = if levels == 0 { f() } else { at_depth(levels - 1, f) };
+            std::hint::black_box(&mut pad);
+            r
+        }
+        let pick: Vec<usize> = (0..pool.len()).filter(|i| pool[*i].expr.len() < 40).step_by(3).collect();
+        let mut bad: Vec<(usize, String, &'static str)> = Vec::new();
+        for deep_first in [false, true] {
+            let b: Vec<(usize, String, &'static str)> = std::thread::scope(|sc| {
+                std::thread::Builder::new().stack_size(64 << 20).spawn_scoped(sc, || {
+                    let mut v = Vec::new();
+                    let order: [(usize, &'static str); 3] = if deep_first { [(64, "from a frame 4 MiB deep, first call of the thread"), (0, "from a shallow frame after deep ones"), (64, "deep again")] }
+                                                            else { [(0, "shallow"), (64, "from a frame 4 MiB deep after shallow ones"), (0, "shallow again")] };
+                    for (levels, what) in order {
+                        for &i in &pick {
+                            let k = &pool[i];
+                            let o = at_depth(levels, &mut || call(k.e, &k.expr, &k.ph).0);
+                            if o.canon() != iso[i] { v.push((i, o.canon(), what)); }
+                        }
+                    }
+                    v
+                }).unwrap().join().unwrap()
+            });
+            bad.extend(b);
+        }
+        out.stats.calls += (pick.len() * 6) as u64;
+        for (i, canon, what) in bad.into_iter().take(20) {
+            let k = &pool[i];
+            out.finding("impure", k.e, &k.expr, &k.ph, &format!("the outcome of an isolated first-time evaluation: {}", iso[i]), &format!("{} ({})", canon, what), json!({"phase": "stack-depth"}));
+        }
+    }
     // (f) after abuse: one thread evaluates pathological inputs far beyond ordinary sizes, over and over (1100 nested implicit
     // products, brackets, signs, calls; thousands of terms) - whatever the outcome - and then every key of the pool: a limit that is
     // consumed, a counter that is not rolled back on an error path, a buffer that keeps growing would show in the ordinary calls after
